@@ -90,6 +90,10 @@ type Session struct {
 	// tornDown is set by SessionTeardown once the session's resources have
 	// been released (guarded by mu)
 	tornDown bool
+	// acctStopped is set by SessionTeardown once the Accounting-Stop of the
+	// session has been sent: a teardown that could not be completed is resumed
+	// by the next caller without a second Stop (guarded by mu)
+	acctStopped bool
 
 	mu sync.RWMutex
 }
